@@ -19,3 +19,16 @@ package util
 //@   ensures {v4-mapped} len(ip) == 16 && ip[0] == 0 && ip[1] == 0 && ip[2] == 0 && ip[3] == 0 && ip[4] == 0 && ip[5] == 0 && ip[6] == 0 && ip[7] == 0 && ip[8] == 0 && ip[9] == 0 && ip[10] == 0xff && ip[11] == 0xff ==> r == v4local(ip[12], ip[13])
 //@   ensures {ipv6} len(ip) == 16 && !(ip[0] == 0 && ip[1] == 0 && ip[2] == 0 && ip[3] == 0 && ip[4] == 0 && ip[5] == 0 && ip[6] == 0 && ip[7] == 0 && ip[8] == 0 && ip[9] == 0 && ip[10] == 0xff && ip[11] == 0xff) ==> r == ulaFirst(ip[0])
 //@   ensures {other-lengths} len(ip) != 4 && len(ip) != 16 ==> !r
+//
+// Untrusted session descriptions (C13): for ANY string received from the other side the function returns a value or
+// an error; the safety sweep (type assertions, map/index accesses, nil dereferences) is on, and encoding/json may put
+// a value of any JSON type under any key.
+//@ func DeserializeSessionDescription(msg string) (desc *webrtc.SessionDescription, err error)
+//@   props C13
+//@   model int
+//@   ensures {value-or-error} (err == nil) <==> (desc != nil)
+//
+//@ func SerializeSessionDescription(desc *webrtc.SessionDescription) (s string, err error)
+//@   props C13
+//@   model int
+//@   requires desc != nil
